@@ -153,6 +153,8 @@ pub struct SimCtx {
     max_macro_depth: AtomicUsize,
     /// maximum of file_depth + macro_depth at the same time: true recursion nesting
     max_nest: AtomicUsize,
+    /// file nesting at the most recent scope entry: where the call was when it stopped descending
+    file_depth_at_last_enter: AtomicUsize,
     sites: [AtomicU64; 8],
     steps: AtomicU64,
     /// offset of the last grammar terminal tried: identifies which directive a keyword-stack event belongs to
@@ -172,6 +174,7 @@ impl SimCtx {
             max_file_depth: AtomicUsize::new(0),
             max_macro_depth: AtomicUsize::new(0),
             max_nest: AtomicUsize::new(0),
+            file_depth_at_last_enter: AtomicUsize::new(0),
             sites: Default::default(),
             steps: AtomicU64::new(0),
             last_ws_offset: AtomicUsize::new(0),
@@ -258,6 +261,7 @@ impl Sim for SimCtx {
             max.fetch_max(v, Ordering::Relaxed);
             let (f, m) = self.depths();
             self.max_nest.fetch_max(f + m, Ordering::Relaxed);
+            self.file_depth_at_last_enter.store(f, Ordering::Relaxed);
         } else {
             let _ = cur.fetch_update(Ordering::Relaxed, Ordering::Relaxed, |v| Some(v.saturating_sub(1)));
         }
@@ -312,6 +316,9 @@ pub struct CallOutcome {
     pub max_file_depth: usize,
     pub max_macro_depth: usize,
     pub max_nest: usize,
+    /// include nesting at the last scope entry of the call (for a failing call: where it failed)
+    #[serde(default)]
+    pub last_file_depth: usize,
     pub text_addr: usize,
     pub sites: [u64; 8],
     /// what exercising the Ok tree found (C08), empty if fine
@@ -594,6 +601,7 @@ fn run_call(ctx: &Arc<SimCtx>, tid: usize, index: usize, call: &Call, opts: &Exe
     ctx.max_file_depth.store(0, Ordering::Relaxed);
     ctx.max_macro_depth.store(0, Ordering::Relaxed);
     ctx.max_nest.store(0, Ordering::Relaxed);
+    ctx.file_depth_at_last_enter.store(0, Ordering::Relaxed);
     if let Some(s) = &shared.sched {
         s.set_in_call(tid, true);
     }
@@ -628,6 +636,9 @@ fn run_call(ctx: &Arc<SimCtx>, tid: usize, index: usize, call: &Call, opts: &Exe
     }
     let (mut rp, mut rq) = (0u64, 0u64);
     if let Ok(ev) = ctx.kw_events.lock() {
+        if std::env::var("SVSIM_DEBUG_KW").is_ok() {
+            eprintln!("kw events (site, offset, depth before): {:?}", *ev);
+        }
         // a shadow of the version stack tells region pushes from the balanced pushes of macro-name lexing;
         // a region event is "replayed" when the same directive (same text offset) already executed one
         let mut shadow: Vec<bool> = vec![]; // true = `begin_keywords region entry
@@ -635,7 +646,10 @@ fn run_call(ctx: &Arc<SimCtx>, tid: usize, index: usize, call: &Call, opts: &Exe
         let mut seen_pop: std::collections::HashSet<usize> = Default::default();
         for (site, off, _depth) in ev.iter() {
             if *site == verif::SITE_KW_CLEAR {
+                // a new parser run (init): offsets now refer to another text / another pass over it
                 shadow.clear();
+                seen_push.clear();
+                seen_pop.clear();
             } else if *site == verif::SITE_KW_BEGIN_DIRECTIVE {
                 shadow.push(false);
             } else if *site == verif::SITE_KW_BEGIN {
@@ -674,6 +688,7 @@ fn run_call(ctx: &Arc<SimCtx>, tid: usize, index: usize, call: &Call, opts: &Exe
         max_file_depth: ctx.max_file_depth.load(Ordering::Relaxed),
         max_macro_depth: ctx.max_macro_depth.load(Ordering::Relaxed),
         max_nest: ctx.max_nest.load(Ordering::Relaxed),
+        last_file_depth: ctx.file_depth_at_last_enter.load(Ordering::Relaxed),
         text_addr,
         sites,
         exercise_fail,
